@@ -4,14 +4,25 @@ import lib, troute
 
 IMPORTS = ["ImathVerif.Spec.MatSpec", "ImathVerif.Gen.C10Quat", "ImathVerif.Gen.C10Algo", "ImathVerif.Gen.C10Interp",
            "ImathVerif.Gen.C10Rot", "ImathVerif.Lemmas.C10Lemmas", "ImathVerif.Lemmas.C10Rot"]
+# every theorem of Props/C10.lean is required (deleting one is a violation, not a silent loss)
 REQUIRED = [
-    "Quat_mul", "Quat_conj", "Quat_rotateVector_eq_mulQuat", "Quat_rotateVector_eq_mulM33", "Quat_rotate_all_agree",
-    "Quat_toMatrix33_mul", "Quat_toMatrix44_mul", "Quat_mul_inverse", "Quat_mul_inverse_of_ne_zero", "Quat_invert",
-    "Quat_normalize_unit", "Quat_normalize_zero", "Quat_toMatrix33_orthonormal", "Quat_toMatrix33_det",
-    "Quat_toMatrix33_rotation", "extractQuat_toMatrix44", "setAxisAngle_consistent", "setAxisAngle_consistent_real",
-    "slerp_eq", "slerp_unit", "slerpShortestArc_eq", "slerpShortestArc_unit", "slerp_endpoints", "slerp_endpoints_real",
-    "squad_keys", "spline_eq_squad", "spline_keys", "intermediate_unit", "exp_log", "setAxisAngle_axis_angle",
-    "setRotationMod_spec", "setRotationMod_carries", "rotationMatrixMod_eq",
+    "Quat_mul", "Quat_conj", "Quat_neg", "Quat_conj_mul", "Quat_mul_conj", "Quat_dot4", "Quat_normSq_mul",
+    "Quat_rotateVector_def", "Quat_rotateVector_eq_mulQuat", "V3_mulQuat_eq_mulM33", "Quat_rotateVector_eq_mulM33", "V3_mulM33",
+    "Quat_rotateVector_vecMul", "Quat_toMatrix44_block", "V3_mulM44_toMatrix44", "M44_multDirMatrix_toMatrix44", "Quat_rotate_all_agree",
+    "Quat_toMatrix33_mul", "M33_mul", "M44_mul", "M33_mulQuat", "Quat_mulM33", "Quat_toMatrix33_mul_toMat", "Quat_toMatrix44_mul",
+    "Quat_toMatrix33_mul_other_order_false", "Quat_mul_unit", "Quat_rotateVector_mul",
+    "Quat_inverse", "Quat_invert", "Quat_invertRet", "Quat_mul_inverse", "normSq_ne_zero_iff", "Quat_mul_inverse_of_ne_zero",
+    "Quat_inverse_unit", "Quat_div", "Quat_divAssign", "Quat_length", "Quat_normalized", "Quat_normalize_unit", "Quat_normalize_zero",
+    "Quat_normalize_of_unit", "Quat_toMatrix33_orthonormal", "Quat_toMatrix33_det", "M33_transposed", "M33_determinant",
+    "Quat_toMatrix33_rotation", "extractQuat_toMatrix44", "setAxisAngle_consistent", "real_half_angle", "real_sqrt_spec",
+    "setAxisAngle_consistent_real", "Quat_setAxisAngle_unit",
+    "slerp_eq", "Quat_normalize_always_unit", "slerp_unit", "slerp_span", "slerpShortestArc_eq", "slerpShortestArc_unit", "intermediate_unit",
+    "Quat_normalize_of_unit_simp", "slerp_endpoints", "squad_keys", "slerp_endpoints_real",
+    "slerp_angle_linear", "slerp_angle_linear_real", "slerpShortestArc_angle_real",
+    "squad_keys_real", "spline_eq_squad", "spline_keys", "spline_keys_real", "exp_log", "setAxisAngle_axis_angle",
+    "intermediate_eq", "exp_real", "log_exp", "Quat_inverse_mul_cancel", "log_r", "interP_r", "intermediate_defining", "interP_example",
+    "intermediate_identity",
+    "setRotationMod_spec", "setRotationMod_carries", "rotationMatrixMod_eq", "rotationMatrixMod_carries",
 ]
 
 # which residue checks speak about which generated function (for the failing-input search of a broken theorem)
@@ -21,12 +32,12 @@ THEOREM_TO_RESIDUE = [
     (r"inverse|invert|conj|Quat_mul|Quat_div", ["mul-inverse-identity", "matrix-of-product"]),
     (r"orthonormal|_det|rotation", ["orthonormal"]),
     (r"extractQuat", ["extractQuat"]),
-    (r"setAxisAngle|axis|angle", ["setAxisAngle-quat-vs-matrix", "axis-angle-roundtrip"]),
-    (r"exp|log", ["exp-log"]),
-    (r"setRotation|rotationMatrix", ["setRotation-carries", "setRotation-unit", "rotationMatrix-carries"]),
+    (r"setAxisAngle|axis|angle", ["setAxisAngle-quat-vs-matrix", "setAxisAngle-exact", "axis-angle-roundtrip"]),
+    (r"exp|log", ["exp-log", "exp-log-formula"]),
+    (r"setRotation|rotationMatrix", ["setRotation-carries", "setRotation-unit", "rotationMatrix-carries", "setRotation-path-decision", "setRotation-guard-sweep"]),
     (r"slerpShortest", ["slerpShortestArc-angle"]),
-    (r"slerp|normalize", ["slerp-unit", "slerp-endpoints", "slerp-angle-linear"]),
-    (r"squad|spline|intermediate", ["squad-keys", "spline-keys"]),
+    (r"slerp|normalize", ["slerp-unit", "slerp-endpoints", "slerp-angle-linear", "slerp-in-plane", "slerp-near-antipodal"]),
+    (r"squad|spline|intermediate|interP", ["spline-tangent", "squad-keys", "spline-keys"]),
 ]
 
 
@@ -59,11 +70,26 @@ def residue(chk, binary, n):
     chk.extra["c10_hits"] = hits
     # constant generators are visible: every class / branch must have been hit
     need = ["extractQuat-branch:trace>0", "extractQuat-branch:largest[0][0]", "extractQuat-branch:largest[1][1]", "extractQuat-branch:largest[2][2]",
-            "setRotation-path:<=90", "setRotation-path:split-at-halfway", "setRotation-path:antipodal-fallback",
+            # the path classifier mirrors the code's current guard |f0+t0|^2 > (8 eps)^2; both kinds of fallback must occur
+            "setRotation-path:<=90", "setRotation-path:split-at-halfway", "setRotation-path:fallback:h0-exactly-zero",
+            "setRotation-path:fallback:threshold(h0!=0)",
+            # guard sweep: |f0+t0| (as the code computes it) just below / just above 8 eps, and at ~4 / ~16 eps, each decided as the guard says
+            "guard-sweep:(0,6]eps:fallback:threshold(h0!=0)", "guard-sweep:(6,8]eps:just-below:fallback:threshold(h0!=0)",
+            "guard-sweep:(8,10]eps:just-above:split-at-halfway", "guard-sweep:(10,24]eps:split-at-halfway",
             "slerpShortestArc:dot<0(negates)", "slerpShortestArc:dot>=0", "quat-class:w-near-0", "quat-class:w-near-+1", "quat-class:w-near--1",
-            "direction-pair:angle=180-1e-k", "direction-pair:exactly-opposite", "spline-tangent:joints-checked"]
-    missing = [k for k in need if not hits.get(k)]
-    chk.oblige("residue: every input class and code branch exercised (hit counts in evidence)", "residue", not missing, missing or None)
+            "direction-pair:angle=180-1e-k", "direction-pair:exactly-opposite",
+            "slerp-pair:theta=180-1e-k(k=7..15)", "slerp-pair:bitwise-antipodal(q2=-q1)",
+            "exp-log:real-part-in(-1+64eps,-0.9)", "axis-class:tiny(length2-underflows)",
+            # tiny-angle branches (mirrors of the code's tests)
+            "sinx_over_x(a):tiny-branch", "sinx_over_x(a):sin(x)/x", "sinx_over_x(t*a):tiny-branch", "log-branch:theta==0", "log-branch:theta/sin(theta)",
+            "exp-branch:guard(k=1,theta==0)", "exp-branch:sin(theta)/theta",
+            "spline-tangent:joints-checked:one-hemisphere", "spline-tangent:joints-checked:hemisphere-change", "spline-tangent:joints-checked:repeated-key"]
+    # a guard-sweep pair decided differently from the documented guard shows up as a hit of an unexpected (bucket, path) combination as well
+    unexpected = [k for k in hits if k.startswith("guard-sweep:") and (
+        (("(0,6]" in k or "(6,8]" in k) and "split" in k) or (("(8,10]" in k or "(10,24]" in k or ">24" in k) and "fallback" in k))]
+    missing = [k for k in need if not hits.get(k)] + ["UNEXPECTED " + k for k in unexpected]
+    chk.oblige("residue: every input class and code branch exercised (%d obligatory classes, hit counts in evidence)" % len(need), "residue",
+               not missing, missing or None)
     seen = set()
     for what, key, rest in fails:
         k = "residue:" + (key if ":" in key else what.split(":")[0])
@@ -77,17 +103,65 @@ def residue(chk, binary, n):
     return stats
 
 
+# leaves of the 13-path setRotation trees that an input can reach: one step, split, and four of the five fallback leaves
+# (`fx² ≤ fy² ∧ ¬ fx² ≤ fz² ∧ fy² ≤ fz²` is contradictory; `normalized (h0) = 0` after `|h0|² > (8 eps)²` and `0*0+0*0+0*0 ≠ 0` cannot happen)
+REACHABLE_SETROTATION_LEAVES = 6
+
+
+def tv_directed(chk, binary, n, idx_deps):
+    """sym_c10c tvdir: tree vs real code, bitwise, on (from, to) pairs built to be exactly / nearly opposite (audit W8)."""
+    cmd = [binary, "tvdir", str(chk.seed), str(n)]
+    for d in idx_deps:
+        cmd += ["--idx", d]
+    rc, out = lib.sh(cmd, timeout=900)
+    rows = dict((m.group(1), [int(m.group(i)) for i in (2, 3, 4, 5)]) for m in
+                re.finditer(r"TVDIR (\S+) evals=(\d+) failures=(\d+) leaves_hit=(\d+) paths=(\d+)", out))
+    fails = [l for l in out.split("\n") if l.startswith("TVFAIL")]
+    ok = rc == 0 and len(rows) == 2 and all(r[1] == 0 for r in rows.values())
+    chk.oblige("tv-directed:c10c: setRotation / rotationMatrix trees = real code, bitwise, on exactly opposite, within-a-few-eps, "
+               "nearly opposite and same-side direction pairs", "translation-validation", ok, None if ok else (fails[:5] or out[-500:]))
+    reach = len(rows) == 2 and all(r[2] >= REACHABLE_SETROTATION_LEAVES for r in rows.values())
+    chk.oblige("tv-directed:c10c: all %d reachable leaves of each 13-path tree compared with the real code" % REACHABLE_SETROTATION_LEAVES,
+               "translation-validation", reach, None if reach else rows)
+    chk.count(sum(r[0] for r in rows.values()), sum(r[0] for r in rows.values()))
+    chk.extra.setdefault("tv", {})["c10c-directed"] = dict((k, {"evaluations": v[0], "failures": v[1], "leaves_hit": v[2], "paths": v[3]}) for k, v in rows.items())
+    for l in fails[:10]:
+        mm = re.match(r"TVFAIL (\S+) (\S+) :: (.*?) :: in=(.*)", l)
+        if mm:
+            ty, fn, detail, inp = mm.groups()
+            chk.fail("tv-directed:c10c", "tv:%s:%s" % (fn, ty),
+                     "extracted model of %s disagrees with the real instantiation at %s on a directed (opposite-direction) input" % (fn, ty),
+                     {"function": fn, "element_type": ty, "detail": detail, "input": inp.split()}, True)
+    if not ok and not fails:
+        chk.fail("tv-directed:c10c", "tv:c10c-directed", "directed translator validation did not run to completion", {"output": out[-1500:]}, False)
+
+
+def _lean_tv_covers(chk, tag, fns):
+    """lean_tv silently skips an entry whose cases all overflow / whose callee has no exact-fraction evaluator: make coverage an obligation."""
+    info = chk.extra.get("lean_tv", {}).get(tag, {})
+    ok = info.get("functions", 0) >= len(fns) and info.get("skipped_external_calls", 1) == 0
+    chk.oblige("lean-tv:%s: every entry (%s) has Lean-side cases, none skipped for its opaque calls" % (
+        tag, ", ".join(fns) if len(fns) <= 4 else "%d entries" % len(fns)),
+               "translation-validation", ok, None if ok else info)
+
+
 def run(chk):
     chk.trusted = ["Lean 4.33 kernel; axioms propext/Classical.choice/Quot.sound at most", "Mathlib (Matrix, Real.sqrt/sin/cos/arccos, Complex.arg)",
-                   "translator harness/sym, validated each run by TV (bitwise at float and double) and by the Lean-side TV at Rat",
+                   "translator harness/sym, validated each run by TV (bitwise at float and double) and by the Lean-side TV at Rat "
+                   "(c10, c10b, c10c; opaque callees evaluated by the REAL templates at an exact-fraction element type, harness/sym/c10frac.h)",
                    "long double (64-bit significand) + glibc sinl/cosl/acosl/atan2l as the oracle of the measured residue"]
     chk.assumptions = ["rounding: NOT proved; measured against exact formulas with per-check bounds c*eps*scale (partial)",
-                       "slerp constant angular velocity, slerpShortestArc shortest way, squad/spline interior behaviour and tangent continuity: MEASURED only (partial)",
+                       "squad/spline interior behaviour, tangent continuity of consecutive spline segments, the tiny-angle branches of sinx_over_x / log / exp, "
+                       "and slerp at / next to q1 = -q2 (finite and unit only): MEASURED only (partial)",
+                       "slerp_angle_linear / slerpShortestArc_angle_real / intermediate_defining exclude the tiny-angle branches by hypothesis (stated with the code's own tests)",
                        "sqrt/sin/cos/acos/atan2 enter the algebraic theorems as parameters with explicit hypotheses (each instantiated by the real functions in an example/theorem)"]
     chk.rule = ("theorems: all quaternions / vectors over any (ordered) field with an explicit unit-norm hypothesis; analytic ones over R. "
                 "residue: unit quaternions (uniform, w near 0, w = 0, w near +-1, axis aligned, +-identity), direction pairs with angle in "
-                "{0, 1e-k, <90, 90-+1e-k, >90, 180-1e-k, 180, exactly opposite (random and integer lattice x exact multiples)}, slerp pairs with "
-                "theta in {0, 1e-k, <90, 90+-1e-k, >90, 180-1e-k}, t in {0, 1, .5, random, 1e-3, 1-1e-3, -0.1, -1e-3, 1+1e-3, 1.1}; float and double")
+                "{0, 1e-k, <90, 90-+1e-k, >90, 180-1e-k, 180, exactly opposite (random and integer lattice x exact multiples)} plus a guard sweep "
+                "|f0+t0| in {4, 7.x, 8.x, 16} eps whose path decision is compared with the documented guard; slerp pairs with "
+                "theta in {0, 1e-k, <90, 90+-1e-k, >90, 180-1e-k (k<=6), 180-1e-k (k=7..15), bitwise antipodal}, t in {0, 1, .5, random, 1e-3, 1-1e-3, "
+                "-0.1, -1e-3, 1+1e-3, 1.1}; axis-angle with ordinary and tiny (length2 underflows) axes, Quat vs Matrix44 vs exact; spline joints with keys "
+                "in one hemisphere / across hemispheres / repeated, Richardson-extrapolated one-sided differences at two step sizes; float and double")
     leaf_index = os.path.join(troute.GEN, "index_leaf.txt")
     bins = troute.build_extractors(chk, [dict(name="sym_leaf", source="sym/sym_leaf.cpp"),
                                          dict(name="sym_c10", source="sym/sym_c10.cpp"),
@@ -100,14 +174,22 @@ def run(chk):
         index, changed = troute.regenerate(chk, bins["sym_c10"], "c10", idx_deps=[leaf_index])
         troute.tv(chk, bins["sym_c10"], "c10", 400 if chk.thorough else 64, idx_deps=[leaf_index])
         troute.lean_tv(chk, bins["sym_c10"], "c10", index, n=8 if chk.thorough else 3, idx_deps=[leaf_index])
+        _lean_tv_covers(chk, "c10", [d["name"] for d in index])
         c10_index = os.path.join(troute.GEN, "index_c10.txt")
         if bins.get("sym_c10b"):
             indexb, _ = troute.regenerate(chk, bins["sym_c10b"], "c10b", idx_deps=[leaf_index, c10_index])
             troute.tv(chk, bins["sym_c10b"], "c10b", 400 if chk.thorough else 64, idx_deps=[leaf_index, c10_index])
+            # emitted text of squad / spline at Rat; slerp / intermediate are the real templates at exact fractions (sym_c10b.cpp)
+            troute.lean_tv(chk, bins["sym_c10b"], "c10b", indexb, n=24 if chk.thorough else 8, idx_deps=[leaf_index, c10_index])
+            _lean_tv_covers(chk, "c10b", ["C10.Quat.squad", "C10.Quat.spline"])
             index = index + indexb
         if bins.get("sym_c10c"):
             indexc, _ = troute.regenerate(chk, bins["sym_c10c"], "c10c", idx_deps=[leaf_index, c10_index])
             troute.tv(chk, bins["sym_c10c"], "c10c", 2000 if chk.thorough else 400, idx_deps=[leaf_index, c10_index])
+            # emitted text of setRotationMod / rotationMatrixMod at Rat; normalized / setRotationInternal are the real templates at exact fractions
+            troute.lean_tv(chk, bins["sym_c10c"], "c10c", indexc, n=24 if chk.thorough else 8, idx_deps=[leaf_index, c10_index])
+            _lean_tv_covers(chk, "c10c", ["C10.Quat.setRotationMod", "C10.rotationMatrixMod"])
+            tv_directed(chk, bins["sym_c10c"], 3000 if chk.thorough else 600, [leaf_index, c10_index])
             index = index + indexc
 
         cache = {}
